@@ -546,7 +546,7 @@ def ob_subgroup_test(deg):
         calls.append((d, list(args)))
         if "::is_zero() const" in d:
             return flag
-    I.add_intercept(r".*", rec, "callee")
+    I.add_intercept(r"(?!llvm\.|memcpy|memmove|memset).*", rec, "callee")
     me = Obj("P", 2 * 48 * deg + 16, "arg", 16, True)
     ret = I.call_function(P.fn[fname], [Ptr(me, 0)])
     R_ORD = 0x73eda753299d7d483339d80809a1d80553bda402fffe5bfeffffffff00000001
